@@ -143,6 +143,11 @@ func biasDriver(prop, focus string, nb func(c *caseCtx) int, tweak func(c *caseC
 		}
 		st := &eventStats{}
 		is := checkTrace(g.method, d.Trace, st)
+		if msg := checkReceived(d); msg != "" {
+			is = append(is, issue{prop, "request-not-as-sent", "the bias works on other data than the request carries: " + msg})
+		} else if viaService {
+			st.add("request_received_as_sent", 1)
+		}
 		// what the response finally shows as a bias's report is the report the bias returned (no later stage rewrote it)
 		if len(d.View.Biases) == len(d.Trace.Bias) {
 			for i, e := range d.Trace.Bias {
@@ -193,6 +198,8 @@ func init() {
 		streams: []*stream{
 			{name: "pairs", n: tierN(45150, 1204000), unit: 6020, run: c07Pairs, floors: map[string]int64{"coherent_events": 30000, "two_or_more_fired": 8000},
 				note: "all 7 x 43 (method, bias sequence <=2) combinations, each repeated with fresh options"},
+			{name: "long-service", n: tierN(3000, 60000), unit: 1500, run: c07Long, service: true,
+				note: "the same generator and oracle as the stream named in front of the dash, but every request goes through decideHandler of main.go in-process (gin binding, the handler's own request object) after a history of 1..3 unrelated requests (accepted and rejected)"},
 			{name: "long", n: tierN(14000, 300000), unit: 3500, run: c07Long, floors: map[string]int64{"bias_events": 60000}},
 		},
 	})
@@ -204,6 +211,8 @@ func init() {
 			"orderings over 4000 seeds (importances 1:2:4:8 and 0:1:2:4). Non-trivial = an omission event; distinct = (method, fired sequence, position, #criteria, options).",
 		assumptions: []string{"n x ratio within 1e-9 of an integer with a non-dyadic ratio is fragile (skipped)", "Choquet importance is skipped when a value gap is within 1% of the 1e-5 grouping distance"},
 		streams: []*stream{
+			{name: "events-service", n: tierN(5000, 80000), unit: 2500, run: biasDriver("C15", "criteriaOmission", oneToThree, nil), service: true,
+				note: "the same generator and oracle as the stream named in front of the dash, but every request goes through decideHandler of main.go in-process (gin binding, the handler's own request object) after a history of 1..3 unrelated requests (accepted and rejected)"},
 			{name: "events", n: tierN(28000, 500000), unit: 3500, run: biasDriver("C15", "criteriaOmission", oneToThree, nil),
 				floors: map[string]int64{"omission_events": 15000, "omission_nonempty": 4000, "importance_checked": 1000}},
 			{name: "reduced", n: tierN(14000, 300000), unit: 3500, run: c15Reduced, floors: map[string]int64{"reduced_compared": 5000}},
@@ -217,6 +226,8 @@ func init() {
 			"everything else identical, range preserved; stream involution: two full reversals restore the data. Non-trivial = a reversal event; distinct as C15.",
 		assumptions: []string{"tolerance 1e-9 x range on real-valued data, exact on dyadic data"},
 		streams: []*stream{
+			{name: "events-service", n: tierN(5000, 80000), unit: 2500, run: biasDriver("C16", "preferenceReversal", oneToThree, nil), service: true,
+				note: "the same generator and oracle as the stream named in front of the dash, but every request goes through decideHandler of main.go in-process (gin binding, the handler's own request object) after a history of 1..3 unrelated requests (accepted and rejected)"},
 			{name: "events", n: tierN(28000, 500000), unit: 3500, run: biasDriver("C16", "preferenceReversal", oneToThree, nil),
 				floors: map[string]int64{"reversal_events": 15000, "reversal_nonempty": 5000, "reversal_with_notconsidered": 1500}},
 			{name: "involution", n: tierN(7000, 100000), unit: 3500, run: c16Involution, floors: map[string]int64{"involutions_checked": 5000}},
@@ -229,6 +240,8 @@ func init() {
 			"decisions must move values both up and down. Non-trivial = a fatigue event; distinct as C15.",
 		assumptions: []string{"a 40-value decision moving all values one way has probability 2^-39 on correct code"},
 		streams: []*stream{
+			{name: "events-service", n: tierN(5000, 80000), unit: 2500, run: biasDriver("C17", "fatigue", oneToThree, nil), service: true,
+				note: "the same generator and oracle as the stream named in front of the dash, but every request goes through decideHandler of main.go in-process (gin binding, the handler's own request object) after a history of 1..3 unrelated requests (accepted and rejected)"},
 			{name: "events", n: tierN(28000, 500000), unit: 3500, run: biasDriver("C17", "fatigue", oneToThree, nil),
 				floors: map[string]int64{"fatigue_events": 15000, "fatigue_bounded_events": 4000, "fatigue_zero_ratio": 500, "fatigue_moved_up": 200, "fatigue_moved_down": 200}},
 			{name: "directions", n: tierN(3000, 30000), unit: 1500, run: c17Directions, floors: map[string]int64{"direction_cases": 2000}},
@@ -244,6 +257,10 @@ func init() {
 		assumptions: []string{"the reference range of a concealed criterion may be measured on the original or on the current state (the statement does not say); both are accepted",
 			"cumulated importance within 1e-9 of the importanceRatio boundary is fragile (skipped)"},
 		streams: []*stream{
+			{name: "concealment-service", n: tierN(3000, 50000), unit: 1500, run: biasDriver("C18", "criteriaConcealment", oneToThree, nil), service: true,
+				note: "the same generator and oracle as the stream named in front of the dash, but every request goes through decideHandler of main.go in-process (gin binding, the handler's own request object) after a history of 1..3 unrelated requests (accepted and rejected)"},
+			{name: "mixing-service", n: tierN(3000, 50000), unit: 1500, run: biasDriver("C18", "criteriaMixing", oneToThree, nil), service: true,
+				note: "the same generator and oracle as the stream named in front of the dash, but every request goes through decideHandler of main.go in-process (gin binding, the handler's own request object) after a history of 1..3 unrelated requests (accepted and rejected)"},
 			{name: "concealment", n: tierN(21000, 400000), unit: 3500, run: biasDriver("C18", "criteriaConcealment", oneToThree, nil),
 				floors: map[string]int64{"concealment_events": 12000, "reference_exact_checked": 3000, "weight_fraction_checked": 8000, "choquet_extension_checked": 1500}},
 			{name: "mixing", n: tierN(21000, 400000), unit: 3500, run: biasDriver("C18", "criteriaMixing", oneToThree, nil),
@@ -259,6 +276,8 @@ func init() {
 			"one criterion, type of the reference criterion, value within mid +- half x [min,max mapped difference], parameters extended. Non-trivial = an anchoring event; distinct as C15.",
 		assumptions: []string{"for the newCriterion applier only the convex-combination necessary condition on the value is judged (the normalised importance weights are not re-derived)"},
 		streams: []*stream{
+			{name: "events-service", n: tierN(5000, 80000), unit: 2500, run: biasDriver("C19", "anchoring", oneToThree, nil), service: true,
+				note: "the same generator and oracle as the stream named in front of the dash, but every request goes through decideHandler of main.go in-process (gin binding, the handler's own request object) after a history of 1..3 unrelated requests (accepted and rejected)"},
 			{name: "events", n: tierN(35000, 500000), unit: 3500, run: biasDriver("C19", "anchoring", oneToThree, nil),
 				floors: map[string]int64{"anchoring_events": 15000, "anchoring_inline_events": 6000, "anchoring_newcriterion_events": 6000, "anchoring_zero_functions": 300}},
 		},
